@@ -32,7 +32,8 @@ def h_curve_ders(cx, sp, order, evaluator='default', span=None):
     n = info['sizes'][0]
     u = cx.real('u', lo=K[p], hi=K[n], param=True)
     cx.assume(u < K[n])
-    cx.snap(u, K)
+    if not sp.get('kscaled'):          # (no absolute snap zone on knot vectors of arbitrary scale; linear span search has no tolerance)
+        cx.snap(u, K)
     orc = oracles.DerivOracle(cx, sp['degs'], info['K'], info['sizes'], info['P'], info['W'], [u])
     ders = obj.derivatives(u, order)
     cx.check('len', len(ders) == order + 1, 'got %d derivative vectors for order %d' % (len(ders), order))
@@ -56,7 +57,8 @@ def h_surface_ders(cx, sp, order, evaluator='default'):
         K = info['K'][d]
         x = cx.real(nm, lo=K[sp['degs'][d]], hi=K[info['sizes'][d]], param=True)
         cx.assume(x < K[info['sizes'][d]])
-        cx.snap(x, K)
+        if not sp.get('kscaled'):
+            cx.snap(x, K)
         prm.append(x)
     orc = oracles.DerivOracle(cx, sp['degs'], info['K'], info['sizes'], info['P'], info['W'], prm)
     skl = obj.derivatives(prm[0], prm[1], order)
@@ -231,6 +233,12 @@ def instances(tier):
     add('hodograph', h_hodograph_surface, spec('surface', (3, 2), ((1,), ()), rational=False), timeout=1800)
     for normalize in (False, True):
         add('tangent_normal', h_tangent_normal, spec('surface', (1, 1), ((1,), ()), rational=False), timeout=1800, normalize=normalize)
+    # knot vectors times one symbolic factor (knot spans of any width): both evaluator families, hodograph
+    for ev in ('default', 'alt'):
+        add('ders', h_curve_ders, spec('curve', (2,), ((1,),), rational=False, dim=2, kscaled=True), order=3, evaluator=ev)
+        add('ders', h_curve_ders, spec('curve', (3,), ((1, 1),), rational=False, dim=2, kscaled=True), order=3, evaluator=ev)
+        add('ders', h_surface_ders, spec('surface', (1, 2), ((), (1,)), rational=False, kscaled=True), timeout=1800, order=2, evaluator=ev)
+    add('ders', h_curve_ders, spec('curve', (2,), ((1,),), rational=True, dim=2, kscaled=True), timeout=1800, order=1)
     # geometry of every size: a fixed regular net times one symbolic factor (unit vectors must be unit vectors at micro scale too)
     for sp in (spec('curve', (2,), ((1,),), rational=False, dim=3, scaled=True), spec('curve', (3,), ((),), rational=True, dim=2, scaled=True),
                spec('surface', (1, 2), ((1,), ()), rational=False, scaled=True), spec('surface', (2, 2), ((), (1,)), rational=False, scaled=True),
